@@ -127,8 +127,8 @@ def make_spec(rng, j, k):
         elif r < 0.65:
             prog.append(("swap", 0))
         elif r < 0.9:
-            nn = int(rng.choice([0, 3, 7, 10, 12, 25, 61, 130]))
-            si = int(rng.choice([1, 2, 3, 5, 10, 40]))   # n // swap_interval runs from 0 to 130 (the progress grouping changes at 50 cycles)
+            nn = int(rng.choice([0, 3, 7, 10, 12, 25, 50, 61, 100, 130]))
+            si = int(rng.choice([1, 2, 3, 5, 10, 40]))   # n // swap_interval runs from 0 to 130, hitting 50 exactly (the progress grouping changes at 50 cycles)
             prog.append(("advance", (nn, si)))
         else:
             prog.append(("return_chains", 0))
